@@ -1110,11 +1110,11 @@ func run(c *engine.Ctx) {
 			}
 		})
 	}
-	for n := maxN + 1; n <= c.Pick(30, 45); n++ {
+	for n := maxN + 1; n <= c.Pick(40, 45); n++ {
 		n := n
 		c.Unit(fmt.Sprintf("ext/n=%d/IntegerPartitions", n), func() { newRunner(c).run(integerPartitionsCase(n)) })
 	}
-	for n := maxN + 1; n <= c.Pick(9, 11); n++ {
+	for n := maxN + 1; n <= c.Pick(10, 11); n++ {
 		n := n
 		c.Unit(fmt.Sprintf("ext/n=%d/Partitions", n), func() { newRunner(c).run(partitionsCase(n)) })
 	}
@@ -1155,4 +1155,6 @@ func run(c *engine.Ctx) {
 			}
 		})
 	})
+
+	runLarge(c)
 }
